@@ -152,6 +152,28 @@ class Journaler:
         )
         self.conn.commit()
 
+    def purge_msgs(
+        self,
+        session: FIXSession,
+        direction: MessageDirection,
+        start_seq_no: int,
+        end_seq_no: int,
+    ):
+        """Deletes journaled messages with seq no in range (session seq nums untouched).
+
+        Args:
+            session: target session
+            direction: message direction
+            start_seq_no: seq no from
+            end_seq_no: seq no to (inclusive)
+        """
+        self.cursor.execute(
+            "DELETE FROM message WHERE session = ? AND direction = ? AND seqNo >= ?"
+            " AND seqNo <= ?",
+            (session.key, direction.value, start_seq_no, end_seq_no),
+        )
+        self.conn.commit()
+
     def persist_msg(
         self,
         msg: bytes,
